@@ -6,7 +6,7 @@ import itertools
 import os
 import vlib
 
-PROOFS = ["MgProof.C09.AvlLemmas", "MgProof.C09.AvlInsert", "MgProof.C09.AvlRemove",
+PROOFS = ["MgProof.C09.AvlLemmas", "MgProof.C09.AvlInsert", "MgProof.C09.AvlRemove", "MgProof.C09.AvlCheck",
           "MgProof.C09.HashLemmas", "MgProof.C09.TrieLemmas", "MgProof.C09.MapLemmas",
           "MgProof.C09.Props"]
 GREP = ["MgModel/C09", "MgProof/C09", "MgModel/Common", "Drv/C09.lean"]
